@@ -41,14 +41,13 @@ def roundRatio (n m : Nat) : Nat :=
     let biased := e3 + 1075
     if biased ≥ 2047 then infBits else biased.toNat * two52 + (q'' - two52)
 
-/-- value `d × 10^e10` for `d > 0` -/
-def decToBits (d : Nat) (e10 : Int) : Nat :=
-  -- number of decimal digits of d bounds the magnitude; far out of range needs no big power
-  let nd : Int := ((toString d).length : Int)
-  if nd + e10 > 400 then infBits
-  else if nd + e10 < -400 then 0
-  else if e10 ≥ 0 then roundRatio (d * 10 ^ e10.toNat) 1
-  else roundRatio d (10 ^ (-e10).toNat)
+/-- value `d × 10^e10` for `d > 0` having `nd` significant decimal digits: far out of range
+needs no big power -/
+def decToBits (nd : Nat) (d : Unit → Nat) (e10 : Int) : Nat :=
+  if (nd : Int) + e10 > 400 then infBits
+  else if (nd : Int) + e10 < -400 then 0
+  else if e10 ≥ 0 then roundRatio (d () * 10 ^ e10.toNat) 1
+  else roundRatio (d ()) (10 ^ (-e10).toNat)
 
 def parseF64 (s : Bytes) : Option Nat :=
   let (neg, body) : Bool × Bytes := match s with
@@ -81,8 +80,8 @@ def parseF64 (s : Bytes) : Option Nat :=
       match exp? with
       | none => none
       | some e =>
-        let d := digitsVal (intDs ++ fracDs)
-        if d = 0 then some sgn
-        else some (sgn + decToBits d (e - (fracDs.length : Int)))
+        let sig := (intDs ++ fracDs).dropWhile (· == 0)
+        if sig.isEmpty then some sgn
+        else some (sgn + decToBits sig.length (fun _ => digitsVal sig) (e - (fracDs.length : Int)))
 
 end Snel.F64Parse
